@@ -158,8 +158,26 @@ def run(prog, rep, tier):
             fills = [f for l in owners for f in buffer_fill(c, l) if b.idx in c.reachable(f[0])]
             okf = len(fills) == 1 and fills[0][1].cmethod == 'copy_from_slice' and fills[0][2] == 0 and c.dominates(fills[0][0], b.idx)
             okd = okr = oks = False
+            so = None
             if okf:
                 so = origins(c, [fills[0][1].args[1].place[0]])
+            else:
+                # `from_seed(digest.split_at(32).0.try_into().unwrap())`: the seed is the first half of a split of the digest at 32, converted to an array
+                cur = t.args[0]
+                for _ in range(6):
+                    e_ = deref_expr(c, expr_of(c, cur))
+                    if e_[0] == 'call' and e_[2].cmethod in ('unwrap', 'expect', 'try_into', 'try_from', 'into', 'from') and e_[2].args and e_[2].args[0].place is not None:
+                        cur = e_[2].args[0]
+                        continue
+                    if e_[0] in ('place', 'ref') and [p_[1] for p_ in e_[1][1] if p_[0] == 'f'] == [0]:
+                        ds_ = [d_ for d_ in c.defs.get(e_[1][0], []) if d_[2] == 'call']
+                        if len(ds_) == 1 and len(c.defs.get(e_[1][0], [])) == 1 and ds_[0][3].cmethod in ('split_at', 'split_first_chunk', 'split_at_checked') and \
+                                (ds_[0][3].cmethod == 'split_first_chunk' and '<32>' in ds_[0][3].cargs or len(ds_[0][3].args) == 2 and const_eval(c, ds_[0][3].args[1]) == T['keygen']['range'][1]) and \
+                                ds_[0][3].args[0].place is not None and c.dominates(ds_[0][0], b.idx):
+                            okf = okr = True
+                            so = origins(c, [ds_[0][3].args[0].place[0]])
+                    break
+            if so is not None:
                 for cb in so.calls:
                     ct = c.blocks[cb].term
                     if ct.cmethod == 'digest' and T['keygen']['hash'] in ct.cargs.replace('VarCore', ''):
